@@ -17,8 +17,8 @@ def oracle_serial(r: dict) -> list[str]:
             continue
         g = lifecycle.group(rep)
         toks = rep.split()
-        if op == 'close':
-            if closed_called and close_returned:
+        if op == 'close' or (op.startswith('xclose') and any(t.startswith(('ret:close', 'blocked:close')) for t in toks)):
+            if closed_called and close_returned and op == 'close':
                 extra = [t for t in toks if not t.startswith(('ret:close', 'st=', 'ce=', 'lc=', 'sd='))]
                 if extra:
                     msgs.append(f'a second close() did something: {extra}')
